@@ -1287,6 +1287,11 @@ pub fn array_splice(
 
     drop(arr_ref);
     let guard = interp.heap.create_guard();
+    // The removed elements are no longer reachable from the source array: root them before
+    // allocating the result array (the allocation may trigger a collection)
+    for value in &removed {
+        value.guard_by(&guard);
+    }
     let arr = interp.create_array_from(&guard, removed);
     Ok(Guarded::with_guard(JsValue::Object(arr), guard))
 }
